@@ -26,7 +26,8 @@ type ssoP struct {
 	SSOEp     string // "" default | custom | custom-noslash | external
 	Host      string // request Host ("" = idp.example)
 	ACS       string // ACS list shape of SP A (see ssoACSLists)
-	Persist   string // CreateAuthRequest answer: "" ok | error | empty-id
+	Persist   string // CreateAuthRequest answer: "" ok | error | empty-id | error-ctx-deadline | error-ctx-canceled
+	Lookup    string // GetEntityByID answer: "" ok | error | error-ctx-deadline | error-ctx-canceled
 	// --- message content
 	Issuer   string // "" a | b | absent | empty | padded | unregistered | case | slash | a+evil | evil+a
 	ID       string // "" ok | absent | empty
@@ -76,6 +77,8 @@ var ssoACSLists = map[string][]msg.ACS{
 	"artifact-default+post": {{msg.BindArtifact, "https://sp-a.example/acs/artifact", "0", "true"}, {msg.BindPost, "https://sp-a.example/acs/post", "1", ""}},
 	"post+artifact-lowest":  {{msg.BindPost, "https://sp-a.example/acs/post", "5", ""}, {msg.BindArtifact, "https://sp-a.example/acs/artifact", "1", ""}},
 	"none":          {},
+	"empty-binding": {{"", "https://sp-a.example/acs/nobinding", "0", ""}},
+	"empty-location": {{msg.BindPost, "", "0", ""}},
 	"query-url":     {{msg.BindPost, "https://sp-a.example/acs/post?tenant=1&x=y", "0", ""}, {msg.BindRedirect, "https://sp-a.example/acs/redirect?tenant=1", "1", ""}},
 	"special-url":   {{msg.BindPost, "https://sp-a.example/acs/p%20o st/\"'<>&;", "0", ""}, {msg.BindRedirect, "https://sp-a.example/acs/r#frag", "1", ""}},
 	"redirect-default+post": {{msg.BindRedirect, "https://sp-a.example/acs/redirect", "0", "1"}, {msg.BindPost, "https://sp-a.example/acs/post", "1", ""}},
@@ -199,6 +202,21 @@ func ssoBuild(p ssoP) (*world.World, *http.Request, *ssoTruth) {
 		w.Store.FaultAt("CreateAuthRequest", 1, world.FaultError)
 	case "empty-id":
 		w.Store.FaultAt("CreateAuthRequest", 1, world.FaultEmptyID)
+	case "error-ctx-deadline":
+		w.Store.FaultAt("CreateAuthRequest", 1, world.FaultCtxDeadline)
+	case "error-ctx-canceled":
+		w.Store.FaultAt("CreateAuthRequest", 1, world.FaultCtxCanceled)
+	case "":
+	default:
+		panic("ssoBuild: Persist " + p.Persist)
+	}
+	switch p.Lookup {
+	case "error":
+		w.Store.FaultAt("GetEntityByID", 1, world.FaultError)
+	case "error-ctx-deadline":
+		w.Store.FaultAt("GetEntityByID", 1, world.FaultCtxDeadline)
+	case "error-ctx-canceled":
+		w.Store.FaultAt("GetEntityByID", 1, world.FaultCtxCanceled)
 	}
 	t.Required = boolTrue(p.SPFlag) || boolTrue(p.IdPFlag)
 
@@ -223,10 +241,6 @@ func ssoBuild(p ssoP) (*world.World, *http.Request, *ssoTruth) {
 	}
 	if p.Issuer != "" {
 		t.Conformant = false
-	}
-	switch p.ID {
-	case "empty":
-		o.ID = ""
 	}
 	t.IDNonEmpty, t.VersionOK = p.ID == "", p.Version == ""
 	adv := cfg.SSOLocation(host)
@@ -332,8 +346,13 @@ func ssoBuild(p ssoP) (*world.World, *http.Request, *ssoTruth) {
 		o.IssueInstant = world.Now.Add(-time.Second).Format("2006-01-02T15:04:05.000000000Z")
 	}
 	tree := msg.Authn(o)
-	if p.ID == "absent" {
+	switch p.ID {
+	case "absent":
 		tree.Del("ID")
+		o.ID = ""
+	case "empty":
+		tree.Set("ID", "")
+		o.ID = ""
 	}
 	switch p.Version {
 	case "absent":
@@ -486,12 +505,18 @@ func ssoBuild(p ssoP) (*world.World, *http.Request, *ssoTruth) {
 		b64 := base64.StdEncoding.EncodeToString(doc)
 		switch p.B64 {
 		case "bad-alphabet":
-			b64 = b64[:len(b64)/2] + "*" + b64[len(b64)/2+1:]
+			if len(b64) < 2 {
+				b64 = "**" + b64
+			} else {
+				b64 = b64[:len(b64)/2] + "*" + b64[len(b64)/2+1:]
+			}
 			t.Decodable, t.Conformant = false, false
 		case "bad-padding":
 			b64 = strings.TrimRight(b64, "=")
-			if len(b64)%4 == 0 {
+			if len(b64)%4 == 0 && len(b64) > 0 {
 				b64 = b64[:len(b64)-1]
+			} else if len(b64) == 0 {
+				b64 = "A"
 			}
 			t.Decodable, t.Conformant = false, false
 		}
@@ -527,7 +552,10 @@ func ssoBuild(p ssoP) (*world.World, *http.Request, *ssoTruth) {
 		if fs.formOverride != nil {
 			form = fs.formOverride
 		}
-		if transport == "post" {
+		if p.Special == "bad-form-encoding" {
+			req = world.NewRequest("POST", host, path, nil, "application/x-www-form-urlencoded", []byte(form.Encode()+"&x=%zz"))
+			t.Decodable, t.Conformant = false, false
+		} else if transport == "post" {
 			req = world.NewRequest("POST", host, path, nil, "application/x-www-form-urlencoded", []byte(form.Encode()))
 		} else {
 			// parameters in the query of a POST: the handler classifies this as Redirect binding (payload must be deflated)
@@ -600,11 +628,17 @@ func mangleB64(raw, kind string, t *ssoTruth) string {
 		v, _ := url.QueryUnescape(p.RawVal)
 		switch kind {
 		case "bad-alphabet":
-			v = v[:len(v)/2] + "*" + v[len(v)/2+1:]
+			if len(v) < 2 {
+				v = "**" + v
+			} else {
+				v = v[:len(v)/2] + "*" + v[len(v)/2+1:]
+			}
 		case "bad-padding":
 			v = strings.TrimRight(v, "=")
-			if len(v)%4 == 0 {
+			if len(v)%4 == 0 && len(v) > 0 {
 				v = v[:len(v)-1]
+			} else if len(v) == 0 {
+				v = "A"
 			}
 		}
 		ps[i].RawVal = msg.Pct(v, msg.PctStyle{})
@@ -666,6 +700,8 @@ func (p *ssoP) set(name, val string) {
 		p.ACS = val
 	case "Persist":
 		p.Persist = val
+	case "Lookup":
+		p.Lookup = val
 	case "Issuer":
 		p.Issuer = val
 	case "ID":
